@@ -9,6 +9,7 @@ import (
 	"fmt"
 	"os"
 	"path/filepath"
+	"regexp"
 	"sort"
 	"strings"
 
@@ -67,17 +68,18 @@ func parseModelReply(rep string) (diags []string, fields map[string]string) {
 }
 
 type progOutcome struct {
-	pkgID                     string
-	impl                      []string // "pos:code" (IMPL codes excluded: modelled by the impl suite)
-	implLoc                   map[string]string
-	model                     []string
-	errors                    []string
-	wf                        string
-	reply                     string
-	missing                   string
-	apfBytes                  int
-	implAnn, modelAnn         []string
-	implMarkers, modelMarkers []string
+	pkgID                         string
+	impl                          []string // "pos:code" (IMPL codes excluded: modelled by the impl suite)
+	implLoc                       map[string]string
+	model                         []string
+	errors                        []string
+	wf                            string
+	reply                         string
+	missing                       string
+	apfBytes                      int
+	implAnn, modelAnn             []string
+	implMarkers, modelMarkers     []string
+	implImpl, modelImpl, specImpl []string // @implements diagnostics: implementation, model, go/types oracle
 }
 
 // runModule loads dir, analyses it with the real analyzers and with the model, returns one outcome per root package.
@@ -145,6 +147,8 @@ func runModuleLoaded(dir string, cfg progCfg, pkgs []*packages.Package, roots []
 		}
 		o.modelAnn = splitSorted(fields["ann"])
 		o.modelMarkers = splitSorted(fields["ign"])
+		o.modelImpl = uniqSorted(splitSorted(fields["impl"]))
+		o.specImpl = uniqSorted(splitSorted(fields["implspec"]))
 		if r := results[p.ID]; r != nil {
 			o.implAnn = r.Ann
 			o.implMarkers = r.Markers
@@ -152,6 +156,9 @@ func runModuleLoaded(dir string, cfg progCfg, pkgs []*packages.Package, roots []
 			seen := map[string]bool{}
 			for _, d := range r.Diags {
 				if strings.HasPrefix(d.Code, "IMPL") {
+					o.implImpl = append(o.implImpl, implKey(d))
+					rel, _ := filepath.Rel(absDir, d.File)
+					o.implLoc[implKey(d)] = fmt.Sprintf("%s:%d:%d", rel, d.Line, d.Col)
 					continue
 				}
 				k := fmt.Sprintf("%d:%s", int(d.Pos), d.Code)
@@ -164,6 +171,7 @@ func runModuleLoaded(dir string, cfg progCfg, pkgs []*packages.Package, roots []
 			}
 		}
 		sort.Strings(o.impl)
+		o.implImpl = uniqSorted(o.implImpl)
 		out = append(out, o)
 	}
 	return out, nil
@@ -305,6 +313,18 @@ func compareModule(sum *res.Summary, label string, dir string, cfg progCfg, outs
 				Clause:  "@ignore markers (ReadIgnoreAnnotations vs GGV.Model.Prog.ignoreOps: scopes C07)",
 				Details: "the (start-end:codes) ranges of the package's @ignore comments differ"})
 		}
+		if focus.all || focus.code(":IMPL") {
+			sum.AddN("impl-diagnostics", len(o.implImpl))
+			if a, b := strings.Join(o.implImpl, ","), strings.Join(o.specImpl, ","); a != b && len(o.errors) == 0 {
+				oi, om := diffSets(o.implImpl, o.specImpl)
+				sum.Disagree(res.Disagreement{Kind: "impl-vs-spec", Input: label + " " + o.pkgID + " [" + cfg.String() + "]", Impl: a, Model: b,
+					Clause:  "C05: @implements verdicts agree with Go's own type checker (oracle: go/types method sets, types.Identical, types.Implements)",
+					Details: fmt.Sprintf("reported but Go disagrees: %v; Go says but not reported: %v (pos:code:hex(interface)[:missing methods])", decodeImplKeys(oi), decodeImplKeys(om))})
+			} else if a, b := strings.Join(o.implImpl, ","), strings.Join(o.modelImpl, ","); a != b && len(o.errors) == 0 {
+				sum.Disagree(res.Disagreement{Kind: "impl-vs-model", Input: label + " " + o.pkgID + " [" + cfg.String() + "]", Impl: a, Model: b,
+					Clause: "GGV.Model.Prog.checkImplements (model of the @implements pipeline)"})
+			}
+		}
 		sum.AddN("annotations-read", len(o.implAnn))
 		sum.AddN("ignore-markers", len(o.implMarkers))
 		onlyImpl, onlyModel := diffSets(focus.filterCodes(o.impl), focus.filterCodes(o.model))
@@ -387,6 +407,7 @@ func corrProgDir(o corrOpts) *res.Summary {
 type genSpec struct {
 	seed uint64
 	o    gen.Options
+	impl bool // an @implements scenario (gen.GenerateImpl) instead of a statement program
 }
 
 func writeModule(dir string, specs []genSpec) (map[string]*gen.Module, error) {
@@ -398,7 +419,12 @@ func writeModule(dir string, specs []genSpec) (map[string]*gen.Module, error) {
 		return nil, err
 	}
 	for _, sp := range specs {
-		m := gen.Generate(sp.seed, sp.o)
+		var m *gen.Module
+		if sp.impl {
+			m = gen.GenerateImpl(sp.seed, sp.o.Root)
+		} else {
+			m = gen.Generate(sp.seed, sp.o)
+		}
 		mods[sp.o.Root] = m
 		for name, content := range m.Files {
 			if name == "go.mod" {
@@ -513,7 +539,7 @@ func corrProg(o corrOpts) *res.Summary {
 				opt = optsFromBits(bits)
 				opt.Root = "k0"
 			}
-			specs = append(specs, genSpec{seed, opt})
+			specs = append(specs, genSpec{seed: seed, o: opt, impl: o.extra["impl"] == "1" || (o.extra["impl"] == "" && o.replay == "" && i%7 == 3)})
 		}
 		dir := scratchDir("prog")
 		_, err := writeModule(dir, specs)
@@ -541,6 +567,9 @@ func corrProg(o corrOpts) *res.Summary {
 			}
 			sp := bySpec[root]
 			label := fmt.Sprintf("prog seed=%d opts=%d", sp.seed, optsBits(sp.o))
+			if sp.impl {
+				label = fmt.Sprintf("prog impl seed=%d", sp.seed)
+			}
 			compareModule(sum, label, dir, cfg, []progOutcome{oc}, src)
 			if o.extra["noann"] == "1" {
 				sum.Count("annotation-free-packages")
@@ -591,4 +620,61 @@ func optsBits(o gen.Options) int {
 
 func optsFromBits(b int) gen.Options {
 	return gen.Options{Spelling: b & 7, Ignores: b&8 != 0, TestFiles: b&16 != 0, NearMiss: b&32 != 0, PermuteDecls: b&64 != 0, Reassign: b&128 != 0, BlankLines: b&256 != 0, RenameLocals: b&512 != 0}
+}
+
+var implHeadRe = regexp.MustCompile(`interface "([^"]+)"`)
+var implPkgRe = regexp.MustCompile(`package "([^"]*)" referenced`)
+var implMethodRe = regexp.MustCompile(`(?m)^  ([A-Za-z_]\w*)\(`)
+
+// implKey renders an IMPL diagnostic of the implementation in the model's encoding
+func implKey(d run.Diag) string {
+	switch d.Code {
+	case "IMPL01":
+		q := ""
+		if m := implPkgRe.FindStringSubmatch(d.Message); m != nil {
+			q = m[1]
+		}
+		return fmt.Sprintf("%d:IMPL01:%s", int(d.Pos), mdl.Hex(q))
+	case "IMPL02":
+		i := ""
+		if m := implHeadRe.FindStringSubmatch(d.Message); m != nil {
+			i = m[1]
+		}
+		return fmt.Sprintf("%d:IMPL02:%s", int(d.Pos), mdl.Hex(i))
+	default:
+		i := ""
+		if m := implHeadRe.FindStringSubmatch(d.Message); m != nil {
+			i = m[1]
+		}
+		var ms []string
+		body := d.Message
+		if k := strings.Index(body, "missing methods:"); k >= 0 {
+			body = body[k:]
+			if e := strings.Index(body, "\n  |"); e >= 0 {
+				body = body[:e]
+			}
+			for _, m := range implMethodRe.FindAllStringSubmatch(body, -1) {
+				ms = append(ms, mdl.Hex(m[1]))
+			}
+		}
+		return fmt.Sprintf("%d:IMPL03:%s:%s", int(d.Pos), mdl.Hex(i), strings.Join(ms, "+"))
+	}
+}
+
+func decodeImplKeys(keys []string) []string {
+	var out []string
+	for _, k := range keys {
+		p := strings.Split(k, ":")
+		for i := 2; i < len(p); i++ {
+			var names []string
+			for _, h := range strings.Split(p[i], "+") {
+				if s, err := mdl.Unhex(h); err == nil {
+					names = append(names, s)
+				}
+			}
+			p[i] = strings.Join(names, "+")
+		}
+		out = append(out, strings.Join(p, ":"))
+	}
+	return out
 }
